@@ -1,15 +1,26 @@
 /-
-Helper lemmas for C03 on fenced code blocks, end to end (`Props/C03Fenced.lean`): a fenced block through
+Helper lemmas for C03 on fenced code blocks, end to end (`Props/C03Fenced.lean`): fenced blocks through
 `PipelineX.convertX` with `fencedCode := true`.  Core Lean only.
 
 A. `convertX` with only `fenced_code` enabled = `Fenced.fencedRunA`, the core block parser, then `Probe.render`
-B. vocabulary of the statements
+B. vocabulary of the statements (`fenceBlock`, `docSource`, `docHtml`, `codeHtml`, …)
+C. the fenced-block preprocessor on one block (`openCands_lang`, `fenceAt_block_lang`, `fencedRunA_block`)
+D. domains (`bodyOk`, `isParaLine`, `FencedDoc`); `NormalizeWhitespace` on the document
+E. the preprocessors on the document            F. the block parser on one-line paragraphs (`parseDocument_paras`)
+G. the inline processor on inert paragraphs     H. prettify, unescape, serializer on lists of paragraphs
+I. the stashed HTML; the end of `convert`       J. `convert_fencedDoc_core`, `convert_fencedDoc`
+K. the output read back by `Ser.readForest`     L. any body: `normBody`, `normalize_doc`, `convert_fencedDoc_any`
+M. documents of paragraphs and any number of fenced blocks (`Item`, `fencedLoopA_items`, `parseDocument_items`,
+   `subPass_items`, `convert_items`)
+N. other extensions enabled at the same time (`dispatchXT_line`, `parseDocumentXT_items`, `runX_parasTree`,
+   the extension tree processors, `fencedHasConfig_items`, `convert_items_flags`)
 -/
 import MdVerif.Lemmas.PipelineX
 import MdVerif.Lemmas.FencedCodeAttrs
 import MdVerif.Lemmas.CodePipe
 import MdVerif.Lemmas.StashAtomic
 import MdVerif.Lemmas.SerializerTree
+import MdVerif.Lemmas.BlockExtFlags
 
 namespace MdVerif.FencedPipe
 open Py Pipeline PipelineX
@@ -176,10 +187,10 @@ theorem openCands_lang (lang r : Str) (h : isLang lang = true) :
     · rfl
   have h5 : startsWith (lang ++ '\n' :: r) ['.'] = false := by
     cases lang with
-    | nil => simp [startsWith]
+    | nil => simp
     | cons d t' =>
       have : d ≠ '.' := by simpa using hdot
-      simp [startsWith, this]
+      simp [this]
   obtain ⟨tl, htl⟩ := descTo_cons lang.length
   have h6 : spanLen isSp ('\n' :: r) = 0 := by simp [spanLen_cons, isSp]
   have h7 : (lang ++ '\n' :: r).drop lang.length = '\n' :: r := by simp
@@ -501,7 +512,7 @@ theorem plainLine_para {p : Str} (h : isParaLine p = true) : plainLine p = true 
   obtain ⟨c0, r0, rfl, hc0, _⟩ := isParaLine_spec h
   have h1 : c0 ≠ '`' := alpha_ne hc0 (by decide)
   have h2 : c0 ≠ '~' := alpha_ne hc0 (by decide)
-  simp [plainLine, startsWith, h1, h2]
+  simp [plainLine, h1, h2]
 
 theorem para_no_nl {p : Str} (h : isParaLine p = true) : '\n' ∉ p := by
   obtain ⟨c0, r0, rfl, _, hw⟩ := isParaLine_spec h
@@ -910,7 +921,7 @@ theorem unescapeKids_paras (ps : List Str) (h : ∀ p ∈ ps, TreeProc.unescapeT
     simp only [List.map_cons, TreeProc.unescapeKids, ih (fun q hq => h q (List.mem_cons_of_mem _ hq))]
     have t1 : Node.truthy (some ['\n']) = true := rfl
     have t2 : Node.truthy none = false := rfl
-    simp [mkText, Node.el, TreeProc.unescapeTree, TreeProc.unescapeKids, TreeProc.unescAttrs, nl1, h1, t1, t2, t3]
+    simp [mkText, Node.el, TreeProc.unescapeTree, TreeProc.unescapeKids, TreeProc.unescAttrs, nl1, h1, t1, t3]
 
 theorem unescape_parasTreeP (ps : List Str) (h : ∀ p ∈ ps, TreeProc.unescapeText 0 p = some p) :
     TreeProc.unescapeTree (parasTreeP ps) = some (parasTreeP ps) := by
@@ -1168,7 +1179,7 @@ theorem render_paras (tab : Nat) (fmt : Ser.Fmt) (refs : List (Str × Str × Opt
         post.flatMap (fun q => '\n' :: par q))))) ++ ['\n'] := by
     have := flatMap_shift post
     simp only [List.flatMap_append, List.flatMap_cons, par, pOpen, pClose, ← PH_eq, List.append_assoc,
-      List.cons_append, List.nil_append, List.singleton_append] at this ⊢
+      List.cons_append, List.nil_append] at this ⊢
     rw [this]
   have hsub : Post.subPass TreeProc.defaultBlockLevel [codeHtml lang b] 0
       (pre.flatMap (fun p => par p ++ ['\n']) ++ (pOpen ++ (htmlPlaceholder 0 ++ (pClose ++
@@ -1901,7 +1912,7 @@ theorem ws_items (items : List Item) (h : ∀ it ∈ items, it.ok = true) (y : S
     cases it with
     | para p =>
       have := ws_paras [p] (by simpa [Item.ok] using hit) (paras (r.map Item.src) ++ y)
-      simp only [paras, List.append_nil, List.append_assoc, List.cons_append, List.nil_append] at this
+      simp only [paras, List.append_assoc, List.cons_append, List.nil_append] at this
       simp only [List.map_cons, Item.src, paras, List.append_assoc, List.cons_append]
       rw [this, ih']
     | fence n ch lang b =>
@@ -2519,7 +2530,7 @@ theorem itemsH_tail (it : Item) (r : List Item) :
   have : ∀ (r : List Item) (x : Item), join ['\n'] ((x :: r).map Item.html) = x.html ++ itemsH r := by
     intro r
     induction r with
-    | nil => intro x; simp [join, itemsH]
+    | nil => intro x; simp [itemsH]
     | cons y r ih =>
       intro x
       rw [List.map_cons, List.map_cons, join_cons_cons, ← List.map_cons, ih y]
@@ -2585,11 +2596,14 @@ theorem itemsU_eq_itemsH_of_no_fence (items : List Item) (h : itemsStashH items 
       rw [this]
     | fence n ch lang b => simp [itemsStashH] at h
 
-/-- **the end of `convert`** on the serialized document: the raw-HTML restore puts every block back -/
-theorem finish_items (it : Item) (r : List Item) (h : ∀ x ∈ it :: r, x.ok = true) :
-    Post.finish TreeProc.defaultBlockLevel (itemsStashH (it :: r))
-      ("<div>".toList ++ ('\n' :: (itemTexts (it :: r) 0).flatMap (fun p => par p ++ ['\n'])) ++ "</div>\n".toList) =
-      some (some (itemsHtml (it :: r))) := by
+/-- the end of `convert` on the serialized document, stage by stage: the strip of the wrapper, the raw-HTML restore
+    (every block put back), and the facts the remaining postprocessors need -/
+theorem finish_items_parts (it : Item) (r : List Item) (h : ∀ x ∈ it :: r, x.ok = true) :
+    ∃ Z, Post.topLevelStrip ("<div>".toList ++ ('\n' :: (itemTexts (it :: r) 0).flatMap (fun p => par p ++ ['\n'])) ++
+        "</div>\n".toList) = some Z ∧
+      Post.rawHtml TreeProc.defaultBlockLevel (itemsStashH (it :: r)) (Post.rawHtmlFuel (itemsStashH (it :: r))) Z =
+        some (itemsHtml (it :: r)) ∧
+      Post.STX ∉ itemsHtml (it :: r) ∧ strip (itemsHtml (it :: r)) = itemsHtml (it :: r) := by
   -- the shape of the output
   have hout_stx : Post.STX ∉ itemsHtml (it :: r) := by
     rw [← itemsH_tail]
@@ -2644,10 +2658,19 @@ theorem finish_items (it : Item) (r : List Item) (h : ∀ x ∈ it :: r, x.ok = 
       have := rawHtml_of_fix TreeProc.defaultBlockLevel (x :: xs) (xs.length + 2) _ _ (by simp) hsub
         (no_prefix_of_no_stx hout_stx)
       simpa [Post.rawHtmlFuel] using this
-  unfold Post.finish
+  refine ⟨(itemsU (it :: r) 0).tail, ?_, hraw, hout_stx, hstrip_out⟩
   rw [hZ, CodeLaw.topLevelStrip_div, strip_append_of_blank (by decide) (by decide), hstrip_in]
-  simp only [Post.post, hraw, Option.map_some]
-  rw [ampSub_of_no_stx hout_stx, hstrip_out]
+
+/-- **the end of `convert`** on the serialized document: the raw-HTML restore puts every block back -/
+theorem finish_items (it : Item) (r : List Item) (h : ∀ x ∈ it :: r, x.ok = true) :
+    Post.finish TreeProc.defaultBlockLevel (itemsStashH (it :: r))
+      ("<div>".toList ++ ('\n' :: (itemTexts (it :: r) 0).flatMap (fun p => par p ++ ['\n'])) ++ "</div>\n".toList) =
+      some (some (itemsHtml (it :: r))) := by
+  obtain ⟨Z, h1, h2, h3, h4⟩ := finish_items_parts it r h
+  unfold Post.finish
+  rw [h1]
+  simp only [Post.post, h2, Option.map_some]
+  rw [ampSub_of_no_stx h3, h4]
 
 /-- **`Markdown.convert` with `fenced_code` on a document of paragraphs and any number of fenced blocks** -/
 theorem convert_items (tab : Nat) (htab : 0 < tab) (fmt : Ser.Fmt) (items : List Item) (hne : items ≠ [])
@@ -2701,5 +2724,815 @@ theorem convert_items (tab : Nat) (htab : 0 < tab) (fmt : Ser.Fmt) (items : List
   simp only [List.reverse_nil]
   rw [itemsStash_eq _ h, hts, render_texts tab fmt [] t0 ts _ (by rw [← hts]; exact htexts), ← hts,
     finish_items it r h]
+
+/-! ### N. other extensions enabled at the same time -/
+
+section flags
+open BlockExt
+
+theorem contains_false_of_missing {l pat : Str} {d : Char} (hd : d ∈ pat) (hl : d ∉ l) : contains l pat = false := by
+  rw [contains_eq_false_iff]
+  rintro a b rfl
+  exact hl (by simp [hd])
+
+/-- none of the triggers of the block-level extensions occurs in the text -/
+def NoTrig (l : Str) : Prop :=
+  contains l trigAdmonition = false ∧ contains l trigDefList = false ∧ contains l trigFootnote = false ∧
+    contains l trigAbbr = false
+
+theorem noTrig_para {p : Str} (h : isParaLine p = true) : NoTrig p := by
+  obtain ⟨_, _, _, _, hw⟩ := isParaLine_spec h
+  have hno : ∀ d : Char, isWordSp d = false → d ∉ p := fun d hd hm => wordSp_ne (hw _ hm) hd rfl
+  exact ⟨contains_false_of_missing (d := '!') (by decide) (hno _ (by decide)),
+    contains_false_of_missing (d := ':') (by decide) (hno _ (by decide)),
+    contains_false_of_missing (d := '[') (by decide) (hno _ (by decide)),
+    contains_false_of_missing (d := '*') (by decide) (hno _ (by decide))⟩
+
+theorem noTrig_placeholder (k : Nat) : NoTrig (Fenced.placeholder k) := by
+  have hno : ∀ d : Char, d ∉ [Char.ofNat 2, 'w', 'z', 'x', 'h', 'd', 'k', ':', Char.ofNat 3] → isAsciiDigit d = false →
+      d ∉ Fenced.placeholder k := fun d h1 h2 hm => ne_of_mem_placeholder hm h1 h2 rfl
+  exact ⟨contains_false_of_missing (d := '!') (by decide) (hno _ (by decide) (by decide)),
+    contains_false_of_missing (d := ' ') (by decide) (hno _ (by decide) (by decide)),
+    contains_false_of_missing (d := '[') (by decide) (hno _ (by decide) (by decide)),
+    contains_false_of_missing (d := '*') (by decide) (hno _ (by decide) (by decide))⟩
+
+theorem admTest_none' {tab : Nat} {parent : Node} {b : Str} (hb : contains b trigAdmonition = false)
+    (hp : ∀ sib, parent.last? = some sib → isAdmDiv sib = false) : admTest tab parent b = none := by
+  simp only [admTest, admSearch_none hb, admContent]
+  cases hl : parent.last? with
+  | none => rfl
+  | some sib => simp [hp sib hl]
+
+theorem isAdmDiv_p (t : Str) : isAdmDiv (mkText "p" t) = false := by
+  simp [isAdmDiv, Node.isTag, mkText, Node.el]
+
+theorem tableTest_line (l : Str) (h : '\n' ∉ l) : Tables.tableTest l = none := by
+  unfold Tables.tableTest
+  rw [splitC_of_no_sep h]
+  rfl
+
+/-- a one-line block in which no processor of the core or of an extension finds its syntax is a paragraph, whatever
+    extensions are enabled -/
+theorem dispatchXT_line (tables : Bool) (cfg : XCfg) (tab : Nat) (htab : 0 < tab) (pb : PB) (refs : Refs) (parent : Node)
+    (c : Char) (r : Str) (rest : List Str) (hnl : '\n' ∉ c :: r) (hc1 : c ≠ ' ') (hc2 : c ∉ lineEsc)
+    (hc3 : isDecimal c = false) (htr : NoTrig (c :: r))
+    (hadm : ∀ sib, parent.last? = some sib → isAdmDiv sib = false) :
+    dispatchXT tables cfg tab pb [] refs parent (c :: r) rest = some (paraP [] refs parent (c :: r) rest) := by
+  have hl : LineStartsOk lineEsc (c :: r) = true := by
+    simp only [LineStartsOk, startOk_of_head c r hc1 hc2, startsOkNl_of_no_nl _ _ hnl, Bool.and_self]
+  have hcn : c ≠ '\n' := fun e => hnl (by simp [e])
+  obtain ⟨n, rfl⟩ : ∃ n, tab = n + 1 := ⟨tab - 1, by omega⟩
+  have e1 : ((c :: r).isEmpty || startsWith (c :: r) ['\n']) = false := by simp [startsWith, hcn]
+  have e2 : startsWith (c :: r) (spaces (n + 1)) = false := by
+    simp [spaces, List.replicate_succ, hc1]
+  have e3 : setextMatch (c :: r) = false := by
+    have : find ['\n'] (c :: r) = none := by
+      rw [find_none_iff]; intro pre post e; apply hnl; rw [e]; simp
+    simp [setextMatch, this]
+  have hmem : ∀ d ∈ lineEsc, c ≠ d := fun d hd e => hc2 (e ▸ hd)
+  have e4 : ∀ ol ul, listItemMatch (n + 1) ol ul (c :: r) = none := by
+    intro ol ul
+    have h0 : countPrefix ' ' (some (n + 1 - 1)) (c :: r) = 0 := countPrefix_eq_zero (by simpa using hc1) _
+    have ho : olMarker (c :: r) = none := by simp [olMarker, spanLen, hc3]
+    have hu : ulMarker (c :: r) = none := by
+      simp [ulMarker, hmem '*' (by decide), hmem '+' (by decide), hmem '-' (by decide)]
+    simp only [listItemMatch, h0, List.drop_zero, ho, hu]
+    cases ol <;> cases ul <;> rfl
+  have hA : (if cfg.admonition then admTest (n + 1) parent (c :: r) else none) = none := by
+    split
+    · exact admTest_none' htr.1 hadm
+    · rfl
+  have hT : (if tables then Tables.tableTest (c :: r) else none) = none := by
+    split
+    · exact tableTest_line _ hnl
+    · rfl
+  have hab : abbrP refs (c :: r) rest = .declined := by
+    simp only [abbrP, abbrSearch_none htr.2.2.2]
+  unfold dispatchXT
+  rw [hA]
+  simp only [tailEmptyT, e1, e2, indentTestX, hT, e3, tailList, e4, tailDef, defSearch_none htr.2.1, tailQuote,
+    tailFootnote, footnoteP_none htr.2.2.1, tailAbbr, hab, tailRef, Bool.false_eq_true, if_false, Bool.false_and,
+    Bool.and_false, Option.isSome_none, ite_self,
+    hashSearch_eq_none (esc := lineEsc) (by decide) _ hl,
+    hrSearch_eq_none (esc := lineEsc) (by decide) (by decide) (by decide) _ hl,
+    quoteSearch_eq_none (esc := lineEsc) (by decide) _ hl, refSearch_eq_none (esc := lineEsc) (by decide) _ hl]
+
+theorem dispatchXT_nop (tables : Bool) (cfg : XCfg) (tab : Nat) (pb : PB) (refs : Refs) (parent : Node) (b : Str)
+    (rest : List Str) (hb : b.isEmpty = true ∨ startsWith b ['\n'] = true) (htr : contains b trigAdmonition = false)
+    (hadm : ∀ sib, parent.last? = some sib → isAdmDiv sib = false) :
+    dispatchXT tables cfg tab pb [] refs parent b rest = some (emptyP refs parent b rest) := by
+  have hA : (if cfg.admonition then admTest tab parent b else none) = none := by
+    split
+    · exact admTest_none' htr hadm
+    · rfl
+  have e1 : (b.isEmpty || startsWith b ['\n']) = true := by
+    rcases hb with h | h <;> simp [h]
+  unfold dispatchXT
+  rw [hA]
+  simp only [tailEmptyT, e1, if_true]
+
+theorem parseBlocksXT_step (tables : Bool) (cfg : XCfg) (tab f : Nat) (state : List BState) (refs : Refs)
+    (parent : Node) (b : Str) (rest : List Str) :
+    parseBlocksXT tables cfg tab (f + 1) state refs parent (b :: rest) =
+      match dispatchXT tables cfg tab (parseBlocksXT tables cfg tab f) state refs parent b rest with
+      | some (parent, refs, blocks) => parseBlocksXT tables cfg tab f state refs parent blocks
+      | none => none := rfl
+
+/-- a line of a paragraph or a placeholder: `ParaLine` and free of extension triggers -/
+def XLine (l : Str) : Prop := ParaLine l ∧ NoTrig l
+
+theorem contains_nl_cons {l pat : Str} (hp : '\n' ∉ pat) (hne : pat ≠ []) (h : contains l pat = false) :
+    contains ('\n' :: l) pat = false := by
+  rw [contains_eq_false_iff] at h ⊢
+  intro a b e
+  cases a with
+  | nil =>
+    cases pat with
+    | nil => exact hne rfl
+    | cons d pat' =>
+      simp at e
+      exact hp (by simp [← e.1])
+  | cons x a' =>
+    simp at e
+    exact h a' b (by rw [e.2]; simp)
+
+theorem parse_blksXT (tables : Bool) (cfg : XCfg) (tab : Nat) (htab : 0 < tab) (refs : Refs) :
+    ∀ (bs : List Blk) (parent : Node),
+      (∀ sib, parent.last? = some sib → preCode sib = none ∧ isAdmDiv sib = false) →
+      (∀ nl l, Blk.par nl l ∈ bs → XLine l) →
+      ∀ fuel, 2 * bs.length ≤ fuel →
+        parseBlocksXT tables cfg tab fuel [] refs parent (bs.map Blk.str) =
+          some ((blkTexts bs).foldl (fun n l => n.append (mkText "p" l)) parent, refs) := by
+  intro bs
+  induction bs with
+  | nil => intro parent _ _ fuel _; cases fuel <;> rfl
+  | cons bk bs ih =>
+    intro parent hl hpar fuel hfuel
+    have hl1 : ∀ sib, parent.last? = some sib → preCode sib = none := fun sib hs => (hl sib hs).1
+    have hl2 : ∀ sib, parent.last? = some sib → isAdmDiv sib = false := fun sib hs => (hl sib hs).2
+    obtain ⟨f, rfl⟩ : ∃ f, fuel = f + 2 := ⟨fuel - 2, by simp at hfuel; omega⟩
+    have hf2 : 2 * bs.length ≤ f := by simp at hfuel; omega
+    cases bk with
+    | nop nl =>
+      have hf := ih parent hl (fun nl l hm => hpar nl l (List.mem_cons_of_mem _ hm)) (f + 1) (by omega)
+      simp only [List.map_cons, blkTexts]
+      rw [parseBlocksXT_step]
+      cases nl with
+      | false =>
+        simp only [Blk.str]
+        rw [dispatchXT_nop _ _ _ _ _ _ _ _ (Or.inl rfl) (by decide) hl2, emptyP_plain _ _ _ _ hl1]
+        exact hf
+      | true =>
+        simp only [Blk.str]
+        rw [dispatchXT_nop _ _ _ _ _ _ _ _ (Or.inr rfl) (by decide) hl2, emptyP_plain _ _ _ _ hl1]
+        exact hf
+    | par nl l =>
+      obtain ⟨⟨c, r, rfl, hnl, hc0, hc2, hc3⟩, htr⟩ := hpar nl l List.mem_cons_self
+      have hc1 : c ≠ ' ' := by intro e; subst e; revert hc0; decide
+      have hv : startsVisible (c :: r) = true := by simpa [startsVisible] using hc0
+      have hih := ih (parent.append (mkText "p" (c :: r)))
+        (fun sib hs => by rw [last_append] at hs; cases hs; exact ⟨preCode_p _, isAdmDiv_p _⟩)
+        (fun nl l hm => hpar nl l (List.mem_cons_of_mem _ hm))
+      have step : ∀ g, 2 * bs.length ≤ g →
+          parseBlocksXT tables cfg tab (g + 1) [] refs parent ((c :: r) :: bs.map Blk.str) =
+          some ((blkTexts bs).foldl (fun n l => n.append (mkText "p" l)) (parent.append (mkText "p" (c :: r))), refs) := by
+        intro g hg
+        rw [parseBlocksXT_step, dispatchXT_line tables cfg tab htab _ refs _ c r _ hnl hc1 hc2 hc3 htr hl2,
+          paraP_visible _ _ _ _ hv]
+        exact hih g hg
+      cases nl with
+      | false => simpa [Blk.str, blkTexts] using step (f + 1) (by omega)
+      | true =>
+        simp only [List.map_cons, Blk.str, blkTexts, List.foldl_cons]
+        rw [parseBlocksXT_step,
+          dispatchXT_nop _ _ _ _ _ _ _ _ (Or.inr rfl) (contains_nl_cons (by decide) (by decide) htr.1) hl2,
+          emptyP_plain _ _ _ _ hl1]
+        simpa using step f hf2
+
+theorem itemsBlocks_length (items : List Item) : ∀ nl k, (itemsBlocks items nl k).length ≤ 2 * items.length + 1 := by
+  induction items with
+  | nil => intro nl k; simp [itemsBlocks]
+  | cons it r ih =>
+    intro nl k
+    cases it with
+    | para p => have := ih false k; simp [itemsBlocks]; omega
+    | fence n ch lang b =>
+      cases nl with
+      | false => have := ih true (k + 1); simp [itemsBlocks]; omega
+      | true => have := ih true (k + 1); simp [itemsBlocks]; omega
+
+theorem itemsText_length (items : List Item) : ∀ k, 2 * items.length ≤ (itemsText items k).length := by
+  induction items with
+  | nil => intro k; simp
+  | cons it r ih =>
+    intro k
+    cases it with
+    | para p => have := ih k; simp [itemsText]; omega
+    | fence n ch lang b => have := ih (k + 1); simp [itemsText]; omega
+
+theorem itemsBlocks_xline (items : List Item) (h : ∀ it ∈ items, it.ok = true) :
+    ∀ nl k nl' l, Blk.par nl' l ∈ itemsBlocks items nl k → XLine l := by
+  induction items with
+  | nil => intro nl k nl' l hm; simp [itemsBlocks] at hm
+  | cons it r ih =>
+    intro nl k nl' l hm
+    have ih' := ih (fun x hx => h x (List.mem_cons_of_mem _ hx))
+    cases it with
+    | para p =>
+      simp only [itemsBlocks, List.mem_cons, Blk.par.injEq] at hm
+      rcases hm with ⟨_, rfl⟩ | hm
+      · have hp : isParaLine l = true := by simpa [Item.ok] using h _ List.mem_cons_self
+        exact ⟨paraLine_para hp, noTrig_para hp⟩
+      · exact ih' _ _ _ _ hm
+    | fence n ch lang b =>
+      cases nl with
+      | false =>
+        simp only [itemsBlocks, List.mem_cons, Blk.par.injEq] at hm
+        rcases hm with ⟨_, rfl⟩ | hm
+        · exact ⟨paraLine_placeholder k, noTrig_placeholder k⟩
+        · exact ih' _ _ _ _ hm
+      | true =>
+        simp only [itemsBlocks, List.mem_cons, Blk.par.injEq, reduceCtorEq, false_or] at hm
+        rcases hm with ⟨_, rfl⟩ | hm
+        · exact ⟨paraLine_placeholder k, noTrig_placeholder k⟩
+        · exact ih' _ _ _ _ hm
+
+/-- **the extended block parser on the document after the preprocessors**, whatever extensions are enabled: the
+    same tree as the core parser, nothing written to the log -/
+theorem parseDocumentXT_items (tables : Bool) (cfg : XCfg) (tab : Nat) (htab : 0 < tab) (items : List Item)
+    (h : ∀ it ∈ items, it.ok = true) :
+    parseDocumentXT tables cfg tab (itemsText items 0) = some (parasTree (itemTexts items 0), []) := by
+  have hsplit := splitAux_items items h false 0
+  simp only [Bool.false_eq_true, if_false, List.nil_append] at hsplit
+  have hlen : 2 * (itemsBlocks items false 0).length ≤ fuelForX (itemsText items 0).length := by
+    have h1 := itemsBlocks_length items false 0
+    have h2 := itemsText_length items 0
+    unfold fuelForX; omega
+  have hf := parse_blksXT tables cfg tab htab [] (itemsBlocks items false 0) (Node.el "div")
+    (fun sib hs => by simp [Node.last?, Node.el] at hs) (fun nl l hm => itemsBlocks_xline items h _ _ nl l hm) _ hlen
+  have htree : (blkTexts (itemsBlocks items false 0)).foldl (fun n l => n.append (mkText "p" l)) (Node.el "div") =
+      parasTree (itemTexts items 0) := by
+    rw [blkTexts_itemsBlocks]
+    generalize itemTexts items 0 = ts
+    have : ∀ (ts : List Str) (parent : Node),
+        ts.foldl (fun n l => n.append (mkText "p" l)) parent =
+          { parent with children := parent.children ++ ts.map (mkText "p") } := by
+      intro ts
+      induction ts with
+      | nil => intro parent; cases parent; simp
+      | cons t ts ih => intro parent; rw [List.foldl_cons, ih]; simp [Node.append]
+    rw [this]
+    simp [parasTree, Node.el]
+  rw [htree] at hf
+  unfold parseDocumentXT parseChunk splitS
+  rw [hsplit]
+  exact hf
+
+/-! #### the inline processor over the extended pattern table -/
+
+open InlineX in
+theorem fnRefScan_none (keys : List Str) (s : Str) (h : '[' ∉ s) : ∀ i, fnRefScan keys 0 s i = none := by
+  induction s with
+  | nil => intro i; rfl
+  | cons c r ih =>
+    intro i
+    have hc : c ≠ '[' := fun e => h (by simp [e])
+    have : fnRefAt (c :: r) = none := by
+      unfold fnRefAt
+      split
+      · rename_i heq; simp at heq; exact absurd heq.1 hc
+      · rfl
+    simp only [fnRefScan, this]
+    exact ih (fun e => h (List.mem_cons_of_mem _ e)) _
+
+open InlineX in
+theorem wikiScan_none (s : Str) (h : '[' ∉ s) : ∀ i, wikiScan s i = none := by
+  induction s with
+  | nil => intro i; rfl
+  | cons c r ih =>
+    intro i
+    have hc : c ≠ '[' := fun e => h (by simp [e])
+    have : wikiAt (c :: r) = none := by
+      unfold wikiAt
+      split
+      · rename_i heq; simp at heq; exact absurd heq.1 hc
+      · rfl
+    simp only [wikiScan, this]
+    exact ih (fun e => h (List.mem_cons_of_mem _ e)) _
+
+open InlineX in
+/-- on quiet text no pattern of the table matches -/
+theorem findX_quiet (xc : InlineX.XCfg) (k : PatK) (data : Str) (x : InlineX.XSt) (hq : Quiet data) :
+    findX xc k data 0 x = some (none, x) := by
+  have hbr : '[' ∉ data := fun hm => (hq _ hm).2.2.1 rfl
+  have hnl : find ['\n'] data = none := by
+    rw [find_none_iff]; intro pre post e
+    exact (hq '\n' (by rw [e]; simp)).2.2.2.1 rfl
+  cases k with
+  | core i =>
+    simp only [findX, findMatch_quiet xc.cfg i data x.st hq]
+  | footnote =>
+    simp only [findX, show ¬ (0 > data.length) by omega, if_false, List.drop_zero, fnRefScan_none _ _ hbr]
+  | wikilink =>
+    simp only [findX, show ¬ (0 > data.length) by omega, if_false, List.drop_zero, wikiScan_none _ hbr]
+  | nl =>
+    simp only [findX, show ¬ (0 > data.length) by omega, if_false, List.drop_zero, hnl]
+
+open InlineX in
+theorem applyPatternX_quiet (xc : InlineX.XCfg) (hi : HIX) (pi : Nat) (data : Str) (x : InlineX.XSt) (hq : Quiet data) :
+    applyPatternX xc hi pi data 0 x = some (data, false, 0, x) := by
+  unfold applyPatternX
+  cases xc.table[pi]? with
+  | none => rfl
+  | some k => simp only [findX_quiet xc k data x hq]
+
+open InlineX in
+theorem hiLoopX_quiet (count : Nat) (ap : Nat → Str → Nat → InlineX.XSt → Option (Str × Bool × Nat × InlineX.XSt)) (data : Str)
+    (x : InlineX.XSt) (hq : ∀ pi, ap pi data 0 x = some (data, false, 0, x)) :
+    ∀ (n pi g : Nat), pi + n = count → n + 1 ≤ g → hiLoopX count ap g data pi 0 x = some (data, x) := by
+  intro n
+  induction n with
+  | zero =>
+    intro pi g hpi hg
+    obtain ⟨g', rfl⟩ : ∃ g', g = g' + 1 := ⟨g - 1, by omega⟩
+    have : ¬ pi < count := by omega
+    simp [hiLoopX, this]
+  | succ n ih =>
+    intro pi g hpi hg
+    obtain ⟨g', rfl⟩ : ∃ g', g = g' + 1 := ⟨g - 1, by omega⟩
+    have : pi < count := by omega
+    simp only [hiLoopX, this, if_true, hq, Bool.false_eq_true, if_false]
+    exact ih (pi + 1) g' (by omega) (by omega)
+
+open InlineX in
+theorem handleInlineTopX_quiet (xc : InlineX.XCfg) (data : Str) (x : InlineX.XSt) (hq : Quiet data) (hcount : 1 ≤ xc.table.length) :
+    handleInlineTopX xc data x = some (data, x) := by
+  unfold handleInlineTopX
+  rw [show data.length + xc.table.length + 4 = (data.length + xc.table.length + 3) + 1 from rfl]
+  unfold handleInlineX
+  apply hiLoopX_quiet _ _ _ _ (fun pi => applyPatternX_quiet xc _ pi data x hq) xc.table.length 0 _ (by omega)
+  unfold loopFuelX
+  have h1 : xc.table.length * 4 ≤ xc.table.length * (data.length + 2) * (data.length + 2) := by
+    have : 4 ≤ (data.length + 2) * (data.length + 2) := by
+      have : 2 ≤ data.length + 2 := by omega
+      calc 4 = 2 * 2 := rfl
+        _ ≤ (data.length + 2) * (data.length + 2) := Nat.mul_le_mul this this
+    rw [Nat.mul_assoc]
+    exact Nat.mul_le_mul_left _ this
+  omega
+
+open InlineX in
+theorem visitChildX_inertP (xc : InlineX.XCfg) (data : Str) (v : VisitX) (h : InlineInert data) (hcount : 1 ≤ xc.table.length) :
+    visitChildX xc (mkText "p" data) v = some (mkText "p" data, [], v) := by
+  obtain ⟨hne, hq, hf⟩ := h
+  obtain ⟨c, r, rfl⟩ : ∃ c r, data = c :: r := by cases data <;> simp_all
+  unfold visitChildX
+  have h1 : Node.truthy (mkText "p" (c :: r)).text = true := rfl
+  simp only [h1, show (mkText "p" (c :: r)).textAtomic = false from rfl, Bool.not_false, Bool.and_self, if_true]
+  rw [show (mkText "p" (c :: r)).text.getD [] = c :: r from rfl, handleInlineTopX_quiet xc _ _ hq hcount]
+  simp only
+  rw [ppTop_nofind v.x.st (c :: r) _ (by simp) hf rfl rfl]
+  cases v
+  simp [mkText, Node.el, Node.truthy]
+
+open InlineX in
+theorem visitLoopX_inert (xc : InlineX.XCfg) (hcount : 1 ≤ xc.table.length) (ps : List Str) (h : ∀ p ∈ ps, InlineInert p) :
+    ∀ (i : Nat) (v : VisitX) (g : Nat), ps.length + 1 ≤ g →
+      ∃ v', visitLoopX xc g (withIdx (ps.map (mkText "p")) i) v = some v' ∧
+        v'.done = (ps.map (mkText "p")).reverse ++ v.done ∧ v'.pushes = v.pushes ∧ v'.x = v.x := by
+  induction ps with
+  | nil =>
+    intro i v g hg
+    obtain ⟨g', rfl⟩ : ∃ g', g = g' + 1 := ⟨g - 1, by simp at hg; omega⟩
+    exact ⟨v, rfl, by simp, rfl, rfl⟩
+  | cons p r ih =>
+    intro i v g hg
+    obtain ⟨g', rfl⟩ : ∃ g', g = g' + 1 := ⟨g - 1, by simp at hg; omega⟩
+    simp only [List.map_cons, withIdx, visitLoopX, visitChildX_inertP xc p v (h p List.mem_cons_self) hcount,
+      List.map_nil, List.nil_append]
+    obtain ⟨v', h1, h2, h3, h4⟩ := ih (fun q hq => h q (List.mem_cons_of_mem _ hq)) (i + 1)
+      { v with done := mkText "p" p :: v.done, posmap := (i, v.done.length) :: v.posmap } g'
+      (by simp at hg ⊢; omega)
+    exact ⟨v', h1, by simp [h2], h3, h4⟩
+
+open InlineX in
+/-- **the inline processor with the extension patterns leaves such a document alone** -/
+theorem runX_parasTree (xc : InlineX.XCfg) (hcount : 1 ≤ xc.table.length) (ps : List Str) (html : List Str)
+    (h : ∀ p ∈ ps, InlineInert p) :
+    runX xc (parasTree ps) html = some (parasTree ps, { st := { html := html } }) := by
+  unfold runX
+  have hsz : ps.length + 1 ≤ Inline.runFuel (parasTree ps) := by
+    have := length_le_sizeList (ps.map (mkText "p"))
+    simp only [List.length_map] at this
+    simp only [Inline.runFuel, parasTree, Node.el, Inline.size]
+    omega
+  generalize hf : Inline.runFuel (parasTree ps) = f at hsz
+  obtain ⟨g, rfl⟩ : ∃ g, f = g + 2 := ⟨f - 2, by simp [Inline.runFuel] at hf; omega⟩
+  obtain ⟨v', h1, h2, h3, h4⟩ := visitLoopX_inert xc hcount ps h 0 { x := { st := { html := html } } } (g + 2) hsz
+  have hc : (parasTree ps).children = ps.map (mkText "p") := rfl
+  simp only [runLoopX, Inline.getAt, hc, h1, h2, h3, h4, List.reverse_append, List.reverse_nil, List.nil_append,
+    List.reverse_reverse, List.map_nil, Inline.setAt]
+  rfl
+
+/-! #### the tree processors and postprocessors of the extensions -/
+
+theorem duplicatesKids_paras (fn : Footnotes.State) (ps : List Str) :
+    FootnotesTree.duplicatesKids fn (ps.map (mkText "p")) = some (ps.map (mkText "p")) := by
+  induction ps with
+  | nil => rfl
+  | cons p r ih =>
+    simp only [List.map_cons, FootnotesTree.duplicatesKids, ih]
+    simp [mkText, Node.el, FootnotesTree.duplicates, FootnotesTree.duplicatesKids]
+
+theorem duplicates_parasTree (fn : Footnotes.State) (ps : List Str) :
+    FootnotesTree.duplicates fn (parasTree ps) = some (parasTree ps) := by
+  have hk := duplicatesKids_paras fn ps
+  simp only [parasTree, Node.el, FootnotesTree.duplicates, hk]
+  simp
+
+theorem blockSearch_none (t : Str) (h : '\n' ∉ t) : AttrList.blockSearch t = none := by
+  induction t with
+  | nil => rfl
+  | cons c r ih =>
+    have hc : c ≠ '\n' := fun e => h (by simp [e])
+    simp [AttrList.blockSearch, hc, ih (fun e => h (List.mem_cons_of_mem _ e))]
+
+theorem blockApply_none (a : AttrList.Attrs) (text : Str) (h : AttrList.blockSearch text = none) :
+    AttrList.blockApply false false a text = (a, text) := by
+  unfold AttrList.blockApply
+  simp only [Bool.false_eq_true, if_false, h]
+
+/-- a paragraph of the prettified tree -/
+def pNode (p : Str) : Node := ⟨.name ['p'], [], some p, false, [], some ['\n'], false⟩
+
+theorem parasTreeP_eq (ps : List Str) :
+    parasTreeP ps = ⟨.name ['d', 'i', 'v'], [], some ['\n'], false, ps.map pNode, some ['\n'], false⟩ := rfl
+
+theorem attrNode_pNode (p : Str) (hne : p ≠ []) (hnl : '\n' ∉ p) :
+    AttrListTree.attrNode TreeProc.defaultBlockLevel none (pNode p) = pNode p := by
+  obtain ⟨c, t, rfl⟩ : ∃ c t, p = c :: t := by cases p <;> simp_all
+  have hbs := blockSearch_none (c :: t) hnl
+  have hbl : TreeProc.isBlockLevel TreeProc.defaultBlockLevel (.name ['p']) = true := CodeLaw.bl_p
+  have hba := blockApply_none [] (c :: t) hbs
+  have hh : AttrListTree.isCellTag (.name ['p']) = false := by decide
+  have hh2 : AttrListTree.isHeaderTag (.name ['p']) = false := by decide
+  simp only [pNode, AttrListTree.attrNode, hbl, if_true, AttrListTree.blockRule, List.isEmpty_nil, Bool.not_true,
+    Bool.false_and, Bool.false_eq_true, if_false, Node.truthy, hh, hh2, Bool.or_self, hba, AttrListTree.attrKids,
+    Option.getD_some]
+
+theorem attrKids_paras (ps : List Str) (h : ∀ p ∈ ps, p ≠ [] ∧ '\n' ∉ p) :
+    ∀ i, AttrListTree.attrKids TreeProc.defaultBlockLevel none i (ps.map pNode) = ps.map pNode := by
+  induction ps with
+  | nil => intro i; rfl
+  | cons p r ih =>
+    intro i
+    simp only [List.map_cons, AttrListTree.attrKids, ih (fun q hq => h q (List.mem_cons_of_mem _ hq)),
+      attrNode_pNode p (h p List.mem_cons_self).1 (h p List.mem_cons_self).2]
+
+theorem attrList_parasTreeP (p0 : Str) (ps : List Str) (h : ∀ p ∈ p0 :: ps, p ≠ [] ∧ '\n' ∉ p) :
+    AttrListTree.run TreeProc.defaultBlockLevel (parasTreeP (p0 :: ps)) = parasTreeP (p0 :: ps) := by
+  have hk := attrKids_paras (p0 :: ps) h 0
+  have hbs : AttrList.blockSearch ['\n'] = none := by decide
+  have hbl : TreeProc.isBlockLevel TreeProc.defaultBlockLevel (.name ['d', 'i', 'v']) = true := CodeLaw.bl_div
+  have hlast : (((p0 :: ps).map pNode).getLast?).bind (·.tail) = some ['\n'] := by
+    rw [List.getLast?_map]
+    cases hl : (p0 :: ps).getLast? with
+    | none => simp at hl
+    | some q => rfl
+  have hne : ((p0 :: ps).map pNode).isEmpty = false := rfl
+  rw [parasTreeP_eq]
+  unfold AttrListTree.run
+  have hba := blockApply_none [] ['\n'] hbs
+  have hh : AttrListTree.isCellTag (.name ['d', 'i', 'v']) = false := by decide
+  have hh2 : AttrListTree.isHeaderTag (.name ['d', 'i', 'v']) = false := by decide
+  have hli : (Tag.name ['d', 'i', 'v'] == Tag.name "li".toList) = false := by decide
+  simp only [AttrListTree.attrNode, hbl, if_true, AttrListTree.blockRule, hlast, hne, Bool.not_false, Bool.true_and,
+    Node.truthy, hh, hh2, Bool.or_self, hli, hba, hk, Bool.false_eq_true, if_false, Option.getD_some]
+
+theorem stripMarker_ne (t : Str) (h : '[' ∉ t) : (strip t == TocTree.marker) = false := by
+  rw [beq_eq_false_iff_ne]
+  intro e
+  have : '[' ∈ strip t := by rw [e]; decide
+  exact h ((strip_infix t).subset this)
+
+theorem walkNode_pNode (env : TocTree.Env) (st : TocTree.St) (p : Str) :
+    TocTree.walkNode env (pNode p) st = .ok (pNode p, st) := by
+  simp [pNode, TocTree.walkNode, TocTree.walkKids, TocTree.isHeaderTag]
+
+theorem walkKids_paras (env : TocTree.Env) (st : TocTree.St) (ps : List Str) :
+    TocTree.walkKids env (ps.map pNode) st = .ok (ps.map pNode, st) := by
+  induction ps with
+  | nil => rfl
+  | cons p r ih => simp only [List.map_cons, TocTree.walkKids, walkNode_pNode, ih]
+
+theorem replKids_paras (div : Node) (ps : List Str) (h : ∀ p ∈ ps, '[' ∉ p) :
+    TocTree.replKids div (ps.map pNode) = ps.map pNode := by
+  induction ps with
+  | nil => rfl
+  | cons p r ih =>
+    have hm := stripMarker_ne p (h p List.mem_cons_self)
+    have e1 : (pNode p).tag = .name ['p'] := rfl
+    have e2 : (pNode p).text = some p := rfl
+    have e3 : TocTree.replNode div (pNode p) = pNode p := by simp [pNode, TocTree.replNode, TocTree.replKids]
+    simp only [List.map_cons, TocTree.replKids, ih (fun q hq => h q (List.mem_cons_of_mem _ hq)), e1, e2, e3,
+      Option.getD_some, hm, Bool.false_and, Bool.and_false, Bool.false_eq_true, if_false]
+    simp [TocTree.isHeaderTag]
+
+theorem toc_parasTreeP (env : TocTree.Env) (ps : List Str) (h : ∀ p ∈ ps, '[' ∉ p) :
+    TocTree.run env TreeProc.defaultBlockLevel (parasTreeP ps) = .ok (parasTreeP ps) := by
+  unfold TocTree.run
+  have h1 : ∀ st, TocTree.walkNode env (parasTreeP ps) st = .ok (parasTreeP ps, st) := by
+    intro st
+    rw [parasTreeP_eq]
+    simp only [TocTree.walkNode, walkKids_paras]
+    simp [TocTree.isHeaderTag]
+  have hids : TocTree.usedIds (TocTree.idsOf (parasTreeP ps)) = some [] := by
+    have hk : ∀ l : List Str, TocTree.idsOfKids (l.map pNode) = [] := by
+      intro l
+      induction l with
+      | nil => rfl
+      | cons p r ih => simp [TocTree.idsOfKids, TocTree.idsOf, pNode, mkText, Node.el, ih]
+    rw [parasTreeP_eq]
+    simp [TocTree.idsOf, hk, TocTree.usedIds, Node.el]
+  rw [hids]
+  simp only
+  rw [h1]
+  simp only
+  rw [parasTreeP_eq]
+  simp only [TocTree.replNode, replKids_paras _ ps h]
+
+theorem postprocess_id (r : Str) (h : Post.STX ∉ r) : FootnotesTree.postprocess r = r := by
+  unfold FootnotesTree.postprocess
+  have h1 : replace r FootnotesTree.fnBacklinkText "&#8617;".toList = r := by
+    apply replace_id_of_not_contains
+    rw [contains_eq_false_iff]
+    rintro a b rfl
+    exact h (by simp [FootnotesTree.fnBacklinkText, FootnotesTree.STX, Post.STX])
+  rw [h1]
+  apply replace_id_of_not_contains
+  rw [contains_eq_false_iff]
+  rintro a b rfl
+  exact h (by simp [FootnotesTree.nbspPlaceholder, FootnotesTree.STX, Post.STX])
+
+/-! #### `attr_list` together with `fenced_code`: no block of the document carries options -/
+
+open PipelineX in
+theorem fencedHasConfig_shift (pre : Str) (fuel : Nat) (t : Str) (i k : Nat) (hi : 1 ≤ i) :
+    fencedHasConfig fuel (pre ++ t) (pre.length + i) k = fencedHasConfig fuel t i k := by
+  induction fuel generalizing t i k with
+  | zero => rfl
+  | succ f ih =>
+    have hfind : fenceFindFrom (pre ++ t) (pre.length + i) = (fenceFindFrom t i).map (shift pre.length) :=
+      fenceFindFrom_prefix pre t i hi
+    simp only [fencedHasConfig, hfind]
+    cases fenceFindFrom t i with
+    | none => rfl
+    | some m =>
+      have htext : ∀ ph : Str, (pre ++ t).take (pre.length + m.start) ++ '\n' :: (ph ++ '\n' ::
+          (pre ++ t).drop (pre.length + m.stop)) = pre ++ (t.take m.start ++ '\n' :: (ph ++ '\n' :: t.drop m.stop)) := by
+        intro ph
+        rw [take_prefix, drop_prefix, List.append_assoc]
+      have hidx : ∀ n : Nat, pre.length + m.start + 1 + n = pre.length + (m.start + 1 + n) := fun n => by omega
+      have hae := attrsEnd_shift pre t m (m.attrs.getD [])
+      simp only [shift] at hae
+      simp only [Option.map_some, shift, htext, hidx, hae]
+      rw [ih _ _ _ (by omega), ih _ _ _ (attrsEnd_ge _ _ _)]
+
+open PipelineX in
+theorem fencedHasConfig_first (pre : Str) (fuel : Nat) (t : Str) (j k : Nat)
+    (hfind : fenceFindFrom (pre ++ t) j = (fenceFindFrom t 0).map (shift pre.length)) :
+    fencedHasConfig fuel (pre ++ t) j k = fencedHasConfig fuel t 0 k := by
+  cases fuel with
+  | zero => rfl
+  | succ f =>
+    simp only [fencedHasConfig, hfind]
+    cases fenceFindFrom t 0 with
+    | none => rfl
+    | some m =>
+      have htext : ∀ ph : Str, (pre ++ t).take (pre.length + m.start) ++ '\n' :: (ph ++ '\n' ::
+          (pre ++ t).drop (pre.length + m.stop)) = pre ++ (t.take m.start ++ '\n' :: (ph ++ '\n' :: t.drop m.stop)) := by
+        intro ph
+        rw [take_prefix, drop_prefix, List.append_assoc]
+      have hidx : ∀ n : Nat, pre.length + m.start + 1 + n = pre.length + (m.start + 1 + n) := fun n => by omega
+      have hae := attrsEnd_shift pre t m (m.attrs.getD [])
+      simp only [shift] at hae
+      simp only [Option.map_some, shift, htext, hidx, hae]
+      rw [fencedHasConfig_shift pre _ _ _ _ (by omega), fencedHasConfig_shift pre _ _ _ _ (attrsEnd_ge _ _ _)]
+
+/-- the search restarted behind an inserted placeholder finds what a search of the rest finds -/
+theorem fenceFindFrom_after_placeholder (k : Nat) (t : Str) :
+    fenceFindFrom (('\n' :: (Fenced.placeholder k ++ ['\n', '\n', '\n'])) ++ t)
+        (0 + 1 + (Fenced.placeholder k).length) =
+      (fenceFindFrom t 0).map (shift ('\n' :: (Fenced.placeholder k ++ ['\n', '\n', '\n'])).length) := by
+  apply fenceFindFrom_mid _ _ _ ['\n', '\n']
+  · simp; omega
+  · have : 0 + 1 + (Fenced.placeholder k).length = ('\n' :: Fenced.placeholder k).length := by
+      simp; omega
+    rw [this, show '\n' :: (Fenced.placeholder k ++ ['\n', '\n', '\n']) =
+      ('\n' :: Fenced.placeholder k) ++ ['\n', '\n', '\n'] from rfl, List.drop_left]
+    rfl
+  · decide
+  · rw [placeholder_shape]
+    have hl2 : 0 + 1 + ((Char.ofNat 2 :: ("wzxhzdk:".toList ++ natToDec k)) ++ [Char.ofNat 3]).length - 1 =
+        ('\n' :: Char.ofNat 2 :: ("wzxhzdk:".toList ++ natToDec k)).length := by
+      simp
+    rw [hl2]
+    have e3 : ('\n' :: (((Char.ofNat 2 :: ("wzxhzdk:".toList ++ natToDec k)) ++ [Char.ofNat 3]) ++
+        ['\n', '\n', '\n'])) ++ t =
+        ('\n' :: Char.ofNat 2 :: ("wzxhzdk:".toList ++ natToDec k)) ++
+          (Char.ofNat 3 :: ('\n' :: '\n' :: '\n' :: t)) := by simp
+    rw [e3, List.getElem?_append_right (Nat.le_refl _)]
+    simp
+
+open PipelineX in
+/-- no block of the document has options: what `attr_list` would turn into attributes of `code` does not occur -/
+theorem fencedHasConfig_items (items : List Item) (h : ∀ it ∈ items, it.ok = true) :
+    ∀ (k fuel : Nat), items.length + 1 ≤ fuel → fencedHasConfig fuel (paras (items.map Item.src)) 0 k = false := by
+  induction items with
+  | nil =>
+    intro k fuel hf
+    obtain ⟨f, rfl⟩ : ∃ f, fuel = f + 1 := ⟨fuel - 1, by simp at hf; omega⟩
+    simp [fencedHasConfig, fenceFindFrom, fenceScan, paras]
+  | cons it r ih =>
+    intro k fuel hf
+    have ih' := ih (fun x hx => h x (List.mem_cons_of_mem _ hx))
+    have hit := h it List.mem_cons_self
+    cases it with
+    | para p =>
+      have hp : isParaLine p = true := by simpa [Item.ok] using hit
+      have e : paras ((Item.para p :: r).map Item.src) = (p ++ ['\n', '\n']) ++ paras (r.map Item.src) := by
+        simp [paras, Item.src]
+      have hpp : plainPrefix (p ++ ['\n', '\n']) := by
+        refine Or.inr ⟨p ++ ['\n'], by simp, ?_⟩
+        simp only [noFenceLine, lines]
+        rw [show p ++ ['\n'] = p ++ '\n' :: [] from rfl, Fenced.splitC_append,
+          Fenced.splitC_no_sep _ _ (fun c hc e => para_no_nl hp (by subst e; exact hc))]
+        simp only [splitC, List.cons_append, List.nil_append, List.all_cons, plainLine_para hp, List.all_nil,
+          Bool.and_true, Bool.true_and]
+        decide
+      rw [e, fencedHasConfig_first _ fuel _ 0 k (fenceFindFrom_prefix0 _ _ hpp)]
+      exact ih' k fuel (by simp at hf ⊢; omega)
+    | fence n ch lang b =>
+      obtain ⟨hch, hn, hl, hb⟩ := Item.ok_fence hit
+      obtain ⟨f, rfl⟩ : ∃ f, fuel = f + 1 := ⟨fuel - 1, by simp at hf; omega⟩
+      have e : paras ((Item.fence n ch lang b :: r).map Item.src) =
+          fenceBlock n ch lang b ++ '\n' :: '\n' :: paras (r.map Item.src) := by
+        simp [paras, Item.src]
+      have e2 : fenceBlock n ch lang b ++ '\n' :: '\n' :: paras (r.map Item.src) =
+          List.replicate n ch ++ (lang ++ '\n' :: (b ++ '\n' :: (List.replicate n ch ++ '\n' ::
+            ('\n' :: paras (r.map Item.src))))) := by
+        simp [fenceBlock]
+      have hat := fenceAt_block_lang n ch lang b ('\n' :: paras (r.map Item.src)) hch hn hl (bodyOk_spec hb).1
+      have hf0 := fenceScan_at _ 0 _ hat
+      have hfind : fenceFindFrom (fenceBlock n ch lang b ++ '\n' :: '\n' :: paras (r.map Item.src)) 0 =
+          some ⟨0, n + lang.length + 1 + (b.length + 1) + n, List.replicate n ch, none, some lang, none, b ++ ['\n']⟩ := by
+        rw [e2]
+        simp only [fenceFindFrom, List.drop_zero]
+        simpa using hf0
+      have hdrop : (fenceBlock n ch lang b ++ '\n' :: '\n' :: paras (r.map Item.src)).drop
+          (n + lang.length + 1 + (b.length + 1) + n) = '\n' :: '\n' :: paras (r.map Item.src) := by
+        apply List.drop_left'
+        simp [fenceBlock]; omega
+      have eA : '\n' :: (Fenced.placeholder k ++ '\n' :: '\n' :: '\n' :: paras (r.map Item.src)) =
+          ('\n' :: (Fenced.placeholder k ++ ['\n', '\n', '\n'])) ++ paras (r.map Item.src) := by simp
+      rw [e, fencedHasConfig, hfind]
+      simp only [Option.getD_none, List.isEmpty_nil, if_true, List.take_zero, List.nil_append, hdrop, Node.truthy,
+        Bool.false_eq_true, if_false]
+      rw [eA, fencedHasConfig_first _ f _ _ _ (fenceFindFrom_after_placeholder k _)]
+      exact ih' (k + 1) f (by simp at hf ⊢; omega)
+
+theorem table_length (a b c : Bool) : 1 ≤ (InlineX.table a b c).length := by
+  cases a <;> cases b <;> cases c <;> decide
+
+theorem runX_parasTree' (cfg : Inline.Cfg) (a b c : Bool) (keys : List Str) (ps : List Str) (html : List Str)
+    (h : ∀ p ∈ ps, InlineInert p) :
+    InlineX.runX { cfg := cfg, table := InlineX.table a b c, fnKeys := keys } (parasTree ps) html =
+      some (parasTree ps, { st := { html := html } }) :=
+  runX_parasTree _ (table_length a b c) ps html h
+
+/-- the tree processors between the inline stage and the serializer, extensions included, on such a document -/
+theorem treeStages_parasTree (x : Exts) (tab : Nat) (fmt : Ser.Fmt) (t0 : Str) (ts : List Str) (stash : List Str)
+    (h : ∀ p ∈ t0 :: ts, TextInert p) (hnl : ∀ p ∈ t0 :: ts, '\n' ∉ p ∧ '[' ∉ p) :
+    (let t := TreeProc.prettify (parasTree (t0 :: ts)) ({ tab := tab, fmt := fmt } : Pipeline.Cfg).blockLevel
+     let t := if x.attrList then AttrListTree.run ({ tab := tab, fmt := fmt } : Pipeline.Cfg).blockLevel t else t
+     let t := if x.abbr then AbbrTree.run (BlockExt.abbrsOf []) t else t
+     let tocStage : TocTree.R Node :=
+       if x.toc then
+         TocTree.run { fmt := ({ tab := tab, fmt := fmt } : Pipeline.Cfg).fmt, post := postX x { tab := tab, fmt := fmt } stash }
+           ({ tab := tab, fmt := fmt } : Pipeline.Cfg).blockLevel t
+       else .ok t
+     tocStage) = .ok (parasTreeP (t0 :: ts)) := by
+  have h1 : TreeProc.prettify (parasTree (t0 :: ts)) ({ tab := tab, fmt := fmt } : Pipeline.Cfg).blockLevel =
+      parasTreeP (t0 :: ts) := prettify_parasTree t0 ts
+  have h2 : AttrListTree.run ({ tab := tab, fmt := fmt } : Pipeline.Cfg).blockLevel (parasTreeP (t0 :: ts)) =
+      parasTreeP (t0 :: ts) :=
+    attrList_parasTreeP t0 ts (fun p hp => ⟨(h p hp).1.1, (hnl p hp).1⟩)
+  have h3 : AbbrTree.run (BlockExt.abbrsOf []) (parasTreeP (t0 :: ts)) = parasTreeP (t0 :: ts) := rfl
+  have h4 : ∀ env, TocTree.run env ({ tab := tab, fmt := fmt } : Pipeline.Cfg).blockLevel (parasTreeP (t0 :: ts)) =
+      .ok (parasTreeP (t0 :: ts)) := fun env => toc_parasTreeP env _ (fun p hp => (hnl p hp).2)
+  simp only [h1]
+  cases x.attrList <;> cases x.abbr <;> cases x.toc <;>
+    simp only [Bool.false_eq_true, if_false, if_true, h2, h3, h4]
+
+theorem no_nl_bracket_texts (items : List Item) (h : ∀ it ∈ items, it.ok = true) (k : Nat) :
+    ∀ p ∈ itemTexts items k, '\n' ∉ p ∧ '[' ∉ p := by
+  intro p hp
+  rcases itemTexts_spec items h k p hp with ⟨j, rfl⟩ | hpl
+  · exact ⟨fun hm => ne_of_mem_placeholder hm (by decide) (by decide) rfl,
+      fun hm => ne_of_mem_placeholder hm (by decide) (by decide) rfl⟩
+  · obtain ⟨_, _, _, _, hw⟩ := isParaLine_spec hpl
+    exact ⟨fun hm => wordSp_ne (hw _ hm) (by decide) rfl, fun hm => wordSp_ne (hw _ hm) (by decide) rfl⟩
+
+/-- **`Markdown.convert` with `fenced_code` AND any of the other modelled extensions** (tables, admonition, def_list,
+    abbr, footnotes, sane_lists, nl2br, wikilinks, attr_list, toc) on a document of paragraphs and fenced blocks:
+    the result is that of `fenced_code` alone.  `hadm` excludes the one point where the model answers "outside
+    the modelled domain" (admonition and `!!!` followed by a non-ASCII character somewhere in the text). -/
+theorem convert_items_flags (x : Exts) (hx : x.fencedCode = true) (tab : Nat) (htab : 0 < tab) (fmt : Ser.Fmt)
+    (items : List Item) (hne : items ≠ []) (h : ∀ it ∈ items, it.ok = true)
+    (hadm : (x.admonition && admNonAscii (paras (items.map Item.src))) = false) :
+    convertX x { tab := tab, fmt := fmt } (itemsSource items) = .ok (itemsHtml items) := by
+  obtain ⟨it, r, rfl⟩ : ∃ it r, items = it :: r := by
+    cases items with
+    | nil => exact absurd rfl hne
+    | cons it r => exact ⟨it, r, rfl⟩
+  have hbase := convert_items tab htab fmt (it :: r) hne h
+  -- the first two tests of `convert` do not depend on the extensions
+  have hlt : (itemsSource (it :: r)).contains '<' = false := by
+    rw [Bool.eq_false_iff]; intro hc
+    exact (items_chars _ hne h '<' (by simpa using hc)).1 rfl
+  have hblank : Normalize.isBlankDoc (itemsSource (it :: r)) = false := by
+    cases hb : Normalize.isBlankDoc (itemsSource (it :: r)) with
+    | false => rfl
+    | true =>
+      rw [convertX_fenced, hlt, hb] at hbase
+      simp only [Bool.false_eq_true, if_false, if_true] at hbase
+      -- the expected output is not empty
+      have : itemsHtml (it :: r) = [] := by injection hbase with e; exact e.symm
+      obtain ⟨r2, hr2⟩ := item_html_shape it
+      rw [← itemsH_tail] at this
+      simp [itemsH, hr2] at this
+  have htexts : ∀ p ∈ itemTexts (it :: r) 0, TextInert p := by
+    intro p hp
+    rcases itemTexts_spec _ h 0 p hp with ⟨j, rfl⟩ | hp
+    · exact textInert_placeholder j
+    · exact textInert_para hp
+  obtain ⟨t0, ts, hts⟩ : ∃ t0 ts, itemTexts (it :: r) 0 = t0 :: ts := by
+    cases it <;> exact ⟨_, _, rfl⟩
+  have hprep : prepareX x { tab := tab, fmt := fmt } (itemsSource (it :: r)) =
+      .ok (itemsText (it :: r) 0, itemsStash (it :: r)) := by
+    unfold prepareX
+    simp only
+    rw [normalize_items tab _ hne h, hadm, hx]
+    have hcfgf : (x.attrList && fencedHasConfig ((paras ((it :: r).map Item.src)).length + 1)
+        (paras ((it :: r).map Item.src)) 0 0) = false := by
+      rw [fencedHasConfig_items _ h 0 _ (by
+        have := length_paras_ge ((it :: r).map Item.src)
+        simp only [List.length_map] at this
+        omega)]
+      simp
+    simp only [Bool.false_eq_true, if_false, if_true, hcfgf, fencedRunA_items _ h, extract_items _ h]
+  have hmk : ∀ pc : Block.Refs → Str → Option (Node × Block.Refs),
+      FootnotesTree.makeDiv pc fnCount (BlockExt.footnotesOf []) [] = .ok (none, []) := fun _ => rfl
+  obtain ⟨Z, hz1, hz2, hz3, hz4⟩ := finish_items_parts it r h
+  unfold convertX
+  rw [hlt, hblank]
+  simp only [Exts.unsupported, Bool.false_eq_true, if_false]
+  unfold treeX
+  rw [hprep]
+  simp only
+  rw [parseDocumentXT_items x.tables x.blockCfg tab htab _ h]
+  simp only [hmk, ite_self]
+  rw [runX_parasTree' _ _ _ _ _ _ _ (fun p hp => (htexts p hp).1)]
+  simp only
+  have hdup : (if x.footnotes then FootnotesTree.duplicates Footnotes.State.empty (parasTree (itemTexts (it :: r) 0))
+      else some (parasTree (itemTexts (it :: r) 0))) = some (parasTree (itemTexts (it :: r) 0)) := by
+    split
+    · exact duplicates_parasTree _ _
+    · rfl
+  rw [hdup]
+  simp only
+  have hstages := treeStages_parasTree x tab fmt t0 ts (itemsStash (it :: r)) (by rw [← hts]; exact htexts)
+    (by rw [← hts]; exact no_nl_bracket_texts _ h 0)
+  simp only at hstages
+  rw [hts, hstages]
+  simp only
+  rw [unescape_parasTreeP _ (fun p hp => (htexts p (by rw [hts]; exact hp)).2.1)]
+  simp only
+  rw [serialize_parasTreeP _ _ (fun p hp => (htexts p (by rw [hts]; exact hp)).1.1),
+    flatMap_congr' _ _ _ (fun p hp => by rw [(htexts p (by rw [hts]; exact hp)).2.2]), ← hts,
+    itemsStash_eq _ h]
+  unfold finishX
+  rw [hz1]
+  simp only [postX]
+  rw [hz2]
+  simp only [Option.map_some]
+  have hpp : (if x.footnotes then FootnotesTree.postprocess (itemsHtml (it :: r)) else itemsHtml (it :: r)) =
+      itemsHtml (it :: r) := by
+    split
+    · exact postprocess_id _ hz3
+    · rfl
+  rw [hpp, ampSub_of_no_stx hz3, hz4]
+
+end flags
 
 end MdVerif.FencedPipe
